@@ -22,7 +22,8 @@ VARS = {  # name -> document description for the oracle (n = value * 16)
     "s2": {"kind": "str", "s": [50], "isnum": 1, "n": 32}, "s25": {"kind": "str", "s": [50, 46, 53], "isnum": 1, "n": 40},
     "t": {"kind": "true"}, "f": {"kind": "false"}, "nul": {"kind": "null"},
     "txt": {"kind": "str", "s": [97, 98, 99], "isnum": 0, "n": 0}, "txt2": {"kind": "str", "s": [97, 98, 100], "isnum": 0, "n": 0},
-    "empty": {"kind": "str", "s": [], "isnum": 0, "n": 0}, "arr": {"kind": "arr"}, "obj": {"kind": "obj"}, "missing": {"kind": "missing"},
+    "empty": {"kind": "str", "s": [], "isnum": 0, "n": 0},
+    "sp": {"kind": "str", "s": [49, 50, 97, 98, 99], "isnum": 0, "n": 0}, "sd": {"kind": "str", "s": [50, 48, 50, 52, 45, 48, 49, 45, 48, 53], "isnum": 0, "n": 0},   # "12abc", "2024-01-05": a numeric prefix is not a number "arr": {"kind": "arr"}, "obj": {"kind": "obj"}, "missing": {"kind": "missing"},
 }
 LITS = [("0", 0), ("1", 16), ("2", 32), ("3", 48), ("7", 112), ("-2", -32), ("0.5", 8), ("2.5", 40), ("5e-1", 8), ("25e-1", 40), ("10", 160), ("1.0", 16)]
 
@@ -50,7 +51,7 @@ def render(items, rnd, depth=0):
 
 def gen(c):
     rnd = random.Random(c.seed)
-    base_pool = [("lit", l) for l in LITS[:8]] + [("var", v) for v in ("n2", "m2", "r", "s2", "t", "nul", "txt", "missing")]
+    base_pool = [("lit", l) for l in LITS[:8]] + [("var", v) for v in ("n2", "m2", "r", "s2", "t", "nul", "txt", "missing", "sp")]
     small_pool = [("lit", LITS[i]) for i in (0, 1, 2, 5, 6, 7)] + [("var", v) for v in ("n3", "h", "s25", "f")]
     all_pool = [("lit", l) for l in LITS] + [("var", v) for v in VARS]
     cases = []
@@ -86,6 +87,24 @@ def gen(c):
         return render(items, rnd)
     for _ in range(20000 if c.thorough else 3000):
         cases.append(rnd_expr(rnd.randint(3, 5), 2))
+    # precedence shapes: EVERY sequence of documented precedence groups of 4 and 5 operators (6^4 + 6^5 shapes), each with several
+    # (thorough, 4 operators: all) choices of the operators inside the groups, over small integers that keep the value exact
+    groups = [["^", "%"], ["*", "/"], ["+", "-"], ["&", "|"], ["==", "!=", "<", ">", "<=", ">="], ["&&", "||"]]
+    ints = [("lit", LITS[i]) for i in (1, 2, 3, 1, 2, 3, 4, 10)] + [("var", "n2"), ("var", "n3")]
+    import itertools
+    for n_ops, per in ((4, 0 if c.thorough else 8), (5, 6 if c.thorough else 1)):
+        for shape in itertools.product(range(6), repeat=n_ops):
+            if per == 0:
+                insts = itertools.product(*[groups[g] for g in shape])
+            else:
+                insts = [[rnd.choice(groups[g]) for g in shape] for _ in range(per)]
+            for ops in insts:
+                items = []
+                for i in range(n_ops + 1):
+                    items.append(operand(rnd, ints))
+                    if i < n_ops:
+                        items.append(ops[i])
+                cases.append(render(items, rnd))
     return cases
 
 
@@ -109,9 +128,9 @@ def main():
     c.count(distinct_keys=[tuple(e["text"]) for e in evs if len(e["tokens"]) > 1])
     for e in evs[100:len(evs):max(1, len(evs) // 5)]:
         c.sample({"text": "".join(chr(u) for u in e["text"]), "ok": e["ok"], "n16": e["n"], "math": "".join(chr(u) for u in e["math"])})
-    c.finish(rule="all 1- and 2-operand expressions over 31 operands (12 literal spellings, 19 variables of every kind incl. missing) x 16 operators, "
-                  "text literals next to ==/!=, %s 3-operand expressions over 10 operands, random 4..6-operand expressions with nested parentheses; "
-                  "random whitespace; distinct = distinct expression texts with at least one operator" % ("all 655,360" if c.thorough else "25,000 sampled"),
+    c.finish(rule="all 1- and 2-operand expressions over 33 operands (12 literal spellings, 21 variables of every kind incl. missing) x 16 operators, "
+                  "text literals next to ==/!=, %s 3-operand expressions over 10 operands, random 4..6-operand expressions with nested parentheses, every sequence of precedence groups of 4 and 5 operators (1,296 + 7,776 shapes, %s) over small integers; "
+                  "random whitespace; distinct = distinct expression texts with at least one operator" % ("all 655,360" if c.thorough else "25,000 sampled", "all 65,536 4-operator sequences, 6 instances per 5-operator shape" if c.thorough else "8 resp. 1 operator choices per shape"),
              assumptions=["results outside the exact dyadic domain (inexact division, large values, 0^0, negative exponents, bitwise on non-integers) are unjudged",
                           "inside one documented precedence group other than * / and + - every association is admissible",
                           "an inline-if whose case has no value may print nothing or its false part (documentation is silent)"],
